@@ -22,7 +22,7 @@ Transcription of
   construction fails when an output still has a free (loop-local) symbol.
 
 Expressions are the arithmetic fragment the check generates: literals, `time`, scalar and
-indexed references, `der` of a (possibly indexed) reference, unary minus, `+ - * /`, `delay`.  For-loops run from 1
+indexed references, `der` of a (possibly indexed) reference, unary minus / floor / ceil / sign / abs, `+ - * /`, comparisons, `if`-expressions, `delay`.  For-loops run from 1
 with step 1 and contain plain equations (the generator does not support nested loops).
 -/
 namespace PymocaVerif.Delay
@@ -30,6 +30,12 @@ open PymocaVerif.Classify (Cat derName delayName)
 
 inductive BinOp where
   | add | sub | mul | div
+  /-- comparisons: 1 if true, 0 if false (as CasADi does) -/
+  | gt | lt | ge | le
+  deriving DecidableEq, Repr
+
+inductive UnOp where
+  | neg | floor | ceil | sign | abs
   deriving DecidableEq, Repr
 
 inductive Expr where
@@ -41,7 +47,9 @@ inductive Expr where
   | der (name : String)
   /-- `der(x[i])` -/
   | derAt (name : String) (i : Expr)
-  | neg (e : Expr)
+  | un (f : UnOp) (e : Expr)
+  /-- `if c then t else e` (`ca.if_else`) -/
+  | ite (c t e : Expr)
   | bin (op : BinOp) (a b : Expr)
   /-- source only: `delay(a, d)`; `id` identifies the node in the source -/
   | delay (id : Nat) (a d : Expr)
@@ -84,7 +92,8 @@ def substVar (v : String) (c : Nat) : Expr → Expr
   | .idx n i => .idx n (substVar v c i)
   | .der n => .der n
   | .derAt n i => .derAt n (substVar v c i)
-  | .neg e => .neg (substVar v c e)
+  | .un f e => .un f (substVar v c e)
+  | .ite x t e => .ite (substVar v c x) (substVar v c t) (substVar v c e)
   | .bin o a b => .bin o (substVar v c a) (substVar v c b)
   | .delay id a d => .delay id (substVar v c a) (substVar v c d)
   | .dsym k => .dsym k
@@ -98,7 +107,8 @@ def mentionsVar (v : String) : Expr → Bool
   | .idx _ i => mentionsVar v i
   | .der _ => false
   | .derAt _ i => mentionsVar v i
-  | .neg e => mentionsVar v e
+  | .un _ e => mentionsVar v e
+  | .ite c t e => mentionsVar v c || mentionsVar v t || mentionsVar v e
   | .bin _ a b => mentionsVar v a || mentionsVar v b
   | .delay _ a d => mentionsVar v a || mentionsVar v d
   | .dsym _ => false
@@ -113,7 +123,8 @@ def mentionsIndexed (v : String) : Expr → Bool
   | .idx _ i => mentionsVar v i
   | .der _ => false
   | .derAt _ i => mentionsVar v i
-  | .neg e => mentionsIndexed v e
+  | .un _ e => mentionsIndexed v e
+  | .ite c t e => mentionsIndexed v c || mentionsIndexed v t || mentionsIndexed v e
   | .bin _ a b => mentionsIndexed v a || mentionsIndexed v b
   | .delay _ a d => mentionsIndexed v a || mentionsIndexed v d
   | .dsym _ => false
@@ -144,7 +155,12 @@ def tr (lp : Option (String × Nat)) : Expr → St → Expr × St
   | .idx n i, s => let r := tr lp i s; (.idx n r.1, r.2)
   | .der n, s => (.der n, s)
   | .derAt n i, s => let r := tr lp i s; (.derAt n r.1, r.2)
-  | .neg e, s => let r := tr lp e s; (.neg r.1, r.2)
+  | .un f e, s => let r := tr lp e s; (.un f r.1, r.2)
+  | .ite c t e, s =>
+    let rc := tr lp c s
+    let rt := tr lp t rc.2
+    let re := tr lp e rt.2
+    (.ite rc.1 rt.1 re.1, re.2)
   | .bin o a b, s =>
     let ra := tr lp a s
     let rb := tr lp b ra.2
@@ -190,7 +206,8 @@ def atoms (lv : Option String) : Expr → List Atom
   | .derAt n i =>
     let ai := atoms lv i
     if .loopVar ∈ ai then [.loopIdx (derName n)] else .der n :: ai
-  | .neg e => atoms lv e
+  | .un _ e => atoms lv e
+  | .ite c t e => atoms lv c ++ atoms lv t ++ atoms lv e
   | .bin _ a b => atoms lv a ++ atoms lv b
   | .delay _ a d => atoms lv a ++ atoms lv d
   | .dsym k => [.dly k]
@@ -297,7 +314,8 @@ def substRef (σ : String → Option Expr) : Expr → Expr
   | .idx n i => .idx n (substRef σ i)
   | .der n => .der n
   | .derAt n i => .derAt n (substRef σ i)
-  | .neg e => .neg (substRef σ e)
+  | .un f e => .un f (substRef σ e)
+  | .ite c t e => .ite (substRef σ c) (substRef σ t) (substRef σ e)
   | .bin o a b => .bin o (substRef σ a) (substRef σ b)
   | .delay id a d => .delay id (substRef σ a) (substRef σ d)
   | .dsym k => .dsym k
@@ -361,6 +379,17 @@ def applyBin : BinOp → Rat → Rat → Option Rat
   | .sub, x, y => some (x - y)
   | .mul, x, y => some (x * y)
   | .div, x, y => if y = 0 then none else some (x / y)
+  | .gt, x, y => some (if x > y then 1 else 0)
+  | .lt, x, y => some (if x < y then 1 else 0)
+  | .ge, x, y => some (if x ≥ y then 1 else 0)
+  | .le, x, y => some (if x ≤ y then 1 else 0)
+
+def applyUn : UnOp → Rat → Rat
+  | .neg, x => -x
+  | .floor, x => (x.floor : Int)
+  | .ceil, x => (x.ceil : Int)
+  | .sign, x => if x > 0 then 1 else if x < 0 then -1 else 0
+  | .abs, x => if x < 0 then -x else x
 
 /-- Value of a translated expression (`delay` nodes do not occur in it). -/
 def eval (ρ : Env) : Expr → Option Rat
@@ -370,7 +399,8 @@ def eval (ρ : Env) : Expr → Option Rat
   | .idx n i => (eval ρ i).bind fun q => (toIndex q).bind fun j => ρ.val n j
   | .der n => ρ.val (derName n) 0
   | .derAt n i => (eval ρ i).bind fun q => (toIndex q).bind fun j => ρ.val (derName n) j
-  | .neg e => (eval ρ e).map (fun x => -x)
+  | .un f e => (eval ρ e).map (applyUn f)
+  | .ite c t e => (eval ρ c).bind fun x => if x = 0 then eval ρ e else eval ρ t
   | .bin o a b => (eval ρ a).bind fun x => (eval ρ b).bind fun y => applyBin o x y
   | .delay _ _ _ => none
   | .dsym k => ρ.val (delayName k) 0
